@@ -24,6 +24,7 @@ type Obligation struct {
 }
 
 type Check struct {
+	typesMemo map[string]*Func
 	P     *Prog
 	Prop  string
 	Tier  string
